@@ -1194,9 +1194,23 @@ func (p *pinner) Update(ctx context.Context, from, to cid.Cid, unpin bool) error
 		return err
 	}
 
+	// A recursive pin supersedes a direct pin of the same cid (see
+	// doPinRecursive): look for one before changing anything.
+	toDirect, err := p.cidDIndex.HasAny(ctx, to.KeyString())
+	if err != nil {
+		return err
+	}
+
 	_, err = p.addPin(ctx, to, ipfspinner.Recursive, pin.Name)
 	if err != nil {
 		return err
+	}
+
+	if toDirect {
+		_, err = p.removePinsForCid(ctx, to, ipfspinner.Direct)
+		if err != nil {
+			return err
+		}
 	}
 
 	if unpin {
